@@ -145,8 +145,86 @@ func GenC04(tier string, seed uint64) []*Case {
 			}
 		}
 	}
+	// nested scopes under coordinator faults: a fault of every kind injected at every request
+	// position of the run (begin / commit / rollback of the outer and of the inner scope), and
+	// cancellation at every request index (i.e. before / inside the inner callback, during the
+	// inner or the outer second phase); retry counts (2,2) so that resends are visible
+	faultAdd := func(gen string, t *Scope, e Entry, script []string, d string, cancel int) {
+		t = cloneScope(t)
+		n := 0
+		number(t, &n)
+		add(&Case{Gen: gen, Tree: t, Script: script, Default: d, Cancel: cancel, Nc: 2, Nr: 2, Entry: e})
+	}
+	outers := []string{"Required"}
+	maxPos := 5
+	if tier == "thorough" {
+		outers = Modes
+		maxPos = 7
+	}
+	for _, mo := range outers {
+		for _, mi := range Modes {
+			for _, oo := range outs2 {
+				for _, oi := range outs2 {
+					for si, sh := range []bool{true, false} {
+						if tier != "thorough" && si == 1 && oo != oi {
+							continue
+						}
+						t := &Scope{M: mo, Out: oo, Shared: true, Kids: []*Scope{{M: mi, Out: oi, Shared: sh}}}
+						for pos := 0; pos < maxPos; pos++ {
+							for _, f := range []string{"f", "e", "t", "n"} {
+								sc := []string{}
+								for i := 0; i < pos; i++ {
+									sc = append(sc, "o")
+								}
+								faultAdd("nested.fault", t, Entry{Role: "UnKnow"}, append(sc, f), "o", -1)
+							}
+						}
+						for cn := 1; cn <= 4; cn++ {
+							faultAdd("nested.cancel", t, Entry{Role: "UnKnow"}, []string{}, "o", cn)
+						}
+					}
+				}
+			}
+		}
+	}
 	// seeded stream: random scripts; 3 in 4 "mostly valid" (well-formed replies dominate)
 	r := hutil.NewRng(seed)
+	nft := 60
+	if tier == "thorough" {
+		nft = 25000
+	}
+	for i := 0; i < nft; i++ {
+		t := randScope(r, 2+r.Intn(3), 2, true)
+		n := r.Intn(9)
+		sc := make([]string, n)
+		for j := range sc {
+			if r.Chance(3, 5) {
+				sc[j] = "o"
+			} else {
+				sc[j] = Replies[r.Intn(len(Replies))]
+			}
+		}
+		d := "o"
+		if r.Chance(1, 8) {
+			d = Replies[r.Intn(len(Replies))]
+		}
+		cn := -1
+		if r.Chance(1, 4) {
+			cn = r.Intn(7)
+		}
+		e := Entry{Role: "UnKnow"}
+		if r.Chance(1, 4) {
+			e.Xid = 100
+		}
+		nc, nr := 2, 2
+		if r.Chance(1, 3) {
+			nc, nr = 1, 2
+		}
+		tt := cloneScope(t)
+		k := 0
+		number(tt, &k)
+		add(&Case{Gen: "nested.random", Tree: tt, Script: sc, Default: d, Cancel: cn, Nc: nc, Nr: nr, Entry: e})
+	}
 	for i := 0; i < nrand; i++ {
 		gi := groups[r.Intn(len(groups))]
 		n := r.Intn(7)
